@@ -221,6 +221,14 @@ LOOKALIKES = {
                           {"sync": {"s.go": "package sync\n\ntype Mutex struct {\n\tN uint64\n}\n\nfunc (m *Mutex) Lock() {\n\tm.N = m.N + 1\n}\n"}}),
     "user-package-disk": ("package p\n\nimport \"example.com/m/disk\"\n\nfunc F() uint64 {\n\treturn disk.Size()\n}\n",
                           {"disk": {"d.go": "package disk\n\nfunc Size() uint64 {\n\treturn 4242\n}\n"}}),
+    "user-package-disk-type": ("package p\n\nimport \"example.com/m/disk\"\n\nfunc F() uint64 {\n\td := disk.Disk{Base: 40}\n\treturn d.Read(2) + d.Size()\n}\n",
+                               {"disk": {"d.go": "package disk\n\ntype Disk struct {\n\tBase uint64\n}\n\nfunc (d Disk) Read(a uint64) uint64 {\n\treturn d.Base + a\n}\n\nfunc (d Disk) Size() uint64 {\n\treturn 100\n}\n"}},
+                               # the interpreter session holds one file: judged on the emitted text (the user's own methods, qualified by the user's package)
+                               ["disk.Disk__Read \"d\" #2", "disk.Disk__Size \"d\"", "struct.mk disk.Disk"]),
+    "user-package-async-disk-type": ("package p\n\nimport \"example.com/m/async_disk\"\n\nfunc F() uint64 {\n\td := async_disk.Disk{Base: 7}\n\treturn d.Read(2)\n}\n",
+                                     {"async_disk": {"d.go": "package async_disk\n\ntype Disk struct {\n\tBase uint64\n}\n\nfunc (d Disk) Read(a uint64) uint64 {\n\treturn d.Base * a\n}\n"}},
+                                     ["async_disk.Disk__Read \"d\" #2", "struct.mk async_disk.Disk"]),
+    "user-type-named-disk": ("package p\n\ntype Disk struct {\n\tbase uint64\n}\n\nfunc (d Disk) Read(a uint64) uint64 {\n\treturn d.base + a\n}\n\nfunc F() uint64 {\n\td := Disk{base: 5}\n\treturn d.Read(3)\n}\n", {}),
     "variable-named-like-package": ("package p\n\ntype T struct {\n\tN uint64\n}\n\nfunc (t *T) UInt64Get(b []byte) uint64 {\n\treturn t.N\n}\n\nfunc F() uint64 {\n\tmachine := &T{N: 31}\n\tb := make([]byte, 8)\n\treturn machine.UInt64Get(b)\n}\n", {}),
     "user-type-named-mutex": ("package p\n\ntype Mutex struct {\n\tn uint64\n}\n\nfunc (m *Mutex) Lock() {\n\tm.n = m.n + 1\n}\n\nfunc F() uint64 {\n\tm := new(Mutex)\n\tm.Lock()\n\tm.Lock()\n\treturn m.n\n}\n", {}),
 }
